@@ -375,3 +375,64 @@ class SymStr:
 def int_to_str(x: SymInt):
     z = x.z
     return wrap_str(z3.If(z >= 0, z3.IntToStr(z), z3.Concat(z3.StringVal("-"), z3.IntToStr(-z))))
+
+
+class SymEnum:
+    """Symbolic member of a (small) Enum class: an Int index into list(cls)."""
+    __slots__ = ("cls", "z", "members")
+
+    def __init__(self, cls, z):
+        self.cls = cls
+        self.z = z
+        self.members = list(cls)
+
+    def _idx(self, o):
+        if isinstance(o, SymEnum):
+            return o.z if o.cls is self.cls else None
+        if isinstance(o, self.cls):
+            return z3.IntVal(self.members.index(o))
+        return None
+
+    def __eq__(self, o):
+        z = self._idx(o)
+        if z is None:
+            return False
+        return wrap_bool(self.z == z)
+
+    def __ne__(self, o):
+        z = self._idx(o)
+        if z is None:
+            return True
+        return wrap_bool(self.z != z)
+
+    def concretize(self):
+        return self.members[_c().concretize_int(self.z)]
+
+    def __hash__(self):
+        return hash(self.concretize())
+
+    @property
+    def value(self):
+        return self.concretize().value
+
+    @property
+    def name(self):
+        return self.concretize().name
+
+    def __getattr__(self, name):
+        # methods of the enum class: run on the concretized member
+        if name.startswith("__"):
+            raise AttributeError(name)
+        return getattr(self.concretize(), name)
+
+    def __repr__(self):
+        return f"<symenum {self.cls.__name__} {self.z}>"
+
+    __str__ = __repr__
+
+
+def wrap_enum(cls, z):
+    z = z3.simplify(z)
+    if z3.is_int_value(z):
+        return list(cls)[z.as_long()]
+    return SymEnum(cls, z)
